@@ -3,7 +3,8 @@
    which launches fail), every jobs >= 1 and both settings of --stop-early. *)
 From Coq Require Import List Arith Bool NArith.
 From Conductor Require Import Model.Loader Model.Planner Model.Exec Model.RunCase
-  Proofs.ExecInv Proofs.ExecTheorems Proofs.ExecMain Proofs.LoaderProofs Proofs.Compose.
+  Proofs.ExecInv Proofs.ExecTheorems Proofs.ExecMain Proofs.LoaderProofs Proofs.Compose
+  Model.Reaper Proofs.ReaperProofs.
 Import ListNotations.
 
 (* progress: every iteration of the main loop launches, skips or completes an operation, so the
@@ -69,6 +70,45 @@ Theorem C09_pipeline_terminates :
   (exists loaded ps evs, cond_run fuel tasks c = ORun loaded ps (Some evs)).
 Proof. exact cond_run_terminates. Qed.
 Print Assumptions C09_pipeline_terminates.
+
+(* ---- the child-reaping protocol (utils/sigchld.py; Model/Reaper.v), for EVERY interleaving of child
+   exits (several per signal included), signal deliveries, handler runs and steps of wait() ---- *)
+
+(* no lost wake-up: in every reachable state in which the main thread sleeps in read() and nothing
+   but a further exit can happen, there is no unreaped child and no unconsumed return code *)
+Theorem C09_no_lost_wakeup :
+  forall tr s, rrun false rinit tr = Some s -> blocked s = true -> zombies s = [] /\ rcs s = [].
+Proof. intros tr s H. apply no_lost_wakeup. exact (rrun_inv tr rinit s rinv_init H). Qed.
+Print Assumptions C09_no_lost_wakeup.
+
+(* no completion is lost, duplicated or attributed to the wrong process: the exits that happened are,
+   as a multiset of (pid, status), exactly what wait() has returned plus what is recorded plus what
+   is still unreaped *)
+Theorem C09_exits_accounted :
+  forall tr s, rrun false rinit tr = Some s ->
+  Permutation.Permutation (exits_of tr) (returned s ++ rcs s ++ zombies s).
+Proof. exact exits_accounted. Qed.
+Print Assumptions C09_exits_accounted.
+
+(* wait() terminates once something has exited: from every reachable state with an unreaped child or
+   an unconsumed return code, on every continuation without further exits some step is possible and
+   every possible step leads towards the return of wait() *)
+Theorem C09_wait_inevitably_returns :
+  forall tr s, rrun false rinit tr = Some s -> waiting s -> Inev s.
+Proof. intros tr s H Hw. apply wait_inevitably_returns; [exact (rrun_inv tr rinit s rinv_init H) | exact Hw]. Qed.
+Print Assumptions C09_wait_inevitably_returns.
+
+(* the protocol before /repo 2ba821d (the Python-level handler is the only writer of the pipe) loses
+   a wake-up: D17, found as real hangs, kept as a machine-checked record *)
+Theorem C09_old_protocol_refuted :
+  exists tr s, rrun true rinit tr = Some s /\ blocked s = true /\ zombies s <> [].
+Proof. exact old_protocol_refuted. Qed.
+Print Assumptions C09_old_protocol_refuted.
+
+Example C09_reaper_nonvacuous :
+  exists s, rrun false rinit [EvCall; EvTest; EvExit 7 0; EvExit 8 3; EvDeliver; EvRead; EvHandler; EvTest] = Some s /\
+            returned s = [(8, 3)] /\ rcs s = [(7, 0)] /\ waiting s.
+Proof. eexists. split; [vm_compute; reflexivity|]. split; [reflexivity|]. split; [reflexivity|]. right. discriminate. Qed.
 
 Example C09_nonvacuous :
   run_plan ex_plan 2 false ex_orc 7 0 =
